@@ -41,7 +41,7 @@ theorem default?_of_mem (sig : Sig) (s : SParam) (hnd : (sig.named.map (·.name)
 theorem byNameOne_eq_at (c : Cfg) (args : List PV) (kw : List (Name × PV)) (s : SParam) (hs : s ∈ c.sig.named)
     (hsig : (c.sig.named.map (·.name)).Nodup) : byNameOne c args kw s = byNameAt c args kw s.name := by
   unfold byNameOne byNameAt
-  simp only [← validate_is_chain_fold, ← isRequired_eq]
+  simp only [← validate_is_chain_fold, ← isRequired_eq, specFindP_eq]
   cases hf : findP c.ps s.name with
   | none => rfl
   | some p =>
@@ -150,6 +150,7 @@ theorem byNameOne_ok_congr (c : Cfg) (args1 args2 : List PV) (kw1 kw2 : List (Na
     (h1 : byNameOne c args1 kw1 s = .ok r1) (h2 : byNameOne c args2 kw2 s = .ok r2) : r1 = r2 := by
   unfold byNameOne at h1 h2
   rw [h] at h1
+  simp only [specFindP_eq] at h1 h2
   cases hf : findP c.ps s.name with
   | some p => rw [hf] at h1 h2; rw [h1] at h2; exact Except.ok.inj h2
   | none =>
@@ -267,6 +268,400 @@ theorem ignore_input_ignores (c : Cfg) (a : Bool) (m : Mode) (args : List PV) (k
     (hi : c.ignoreInput = true) : runValidate c a m args kw = runValidate c a m [] [] := by
   simp only [runValidate, wrapperContent_eq_seq, wrapperSeq, hi, ↓reduceIte]
 
+/-! ## The converse: a clean call whose by-name binding exists does run, with exactly that binding -/
+
+theorem mapM_ok_each {α β ε : Type} (f : α → Except ε β) : ∀ (l : List α) (b : List β), l.mapM f = .ok b →
+    ∀ a ∈ l, ∃ y, f a = .ok y := by
+  intro l
+  induction l with
+  | nil => intro b _ a ha; cases ha
+  | cons x l ih =>
+    intro b h a ha
+    simp only [List.mapM_cons, bind, Except.bind] at h
+    cases hfx : f x with
+    | error e => rw [hfx] at h; cases h
+    | ok y =>
+      rw [hfx] at h
+      simp only at h
+      cases hl : l.mapM f with
+      | error e => rw [hl] at h; cases h
+      | ok ys =>
+        simp only [List.mem_cons] at ha
+        rcases ha with rfl | ha
+        · exact ⟨y, hfx⟩
+        · exact ih ys hl a ha
+
+theorem lookupKV_of_mem : ∀ (l : List (Name × PV)) (k : Name) (v : PV), keysNodup l → (k, v) ∈ l → lookupKV l k = some v := by
+  intro l
+  induction l with
+  | nil => intro k v _ h; cases h
+  | cons kv r ih =>
+    intro k v hnd h
+    obtain ⟨k', v'⟩ := kv
+    obtain ⟨hk', hr⟩ := hnd
+    simp only [List.mem_cons, Prod.mk.injEq] at h
+    simp only [lookupKV]
+    rcases h with ⟨rfl, rfl⟩ | h
+    · simp
+    · have := ih k v hr h
+      by_cases he : (k' == k) = true
+      · have : k' = k := by simpa using he
+        subst this; rw [hk'] at this; cases this
+      · simp only [he, Bool.false_eq_true, ↓reduceIte]; exact this
+
+theorem gateOut_ok_of_all_ok (c : Cfg) : ∀ (items : List Item) (res : Assoc),
+    (∀ it ∈ items, ∃ r, itemOut c it = .ok r) → ∃ res', gateOut c items res = specFlask c res' := by
+  intro items
+  induction items with
+  | nil => intro res _; exact ⟨res, rfl⟩
+  | cons it tl ih =>
+    intro res h
+    obtain ⟨r, hr⟩ := h it (by simp)
+    have htl : ∀ i ∈ tl, ∃ r, itemOut c i = .ok r := fun i hi => h i (by simp [hi])
+    simp only [gateOut, hr]
+    cases r with
+    | none => exact ih res htl
+    | some nv => obtain ⟨n, v⟩ := nv; exact ih _ htl
+
+/-- the call is one Python itself would accept for the undecorated function as far as names go: no surplus positional, every
+    keyword names a parameter of the function, no name is passed twice, every declared Parameter names a parameter -/
+def CleanCall (c : Cfg) (args : List PV) (kw : List (Name × PV)) : Prop :=
+  args.length ≤ c.sig.pos.length ∧
+  (∀ kv ∈ kw, kv.1 ∈ c.sig.named.map (·.name)) ∧
+  (∀ kv ∈ kw, kv.1 ∉ c.sig.posNames.take args.length) ∧
+  (∀ p ∈ c.ps, p.name ∈ c.sig.named.map (·.name))
+
+theorem named_of_name (sig : Sig) (n : Name) (h : n ∈ sig.named.map (·.name)) : ∃ s ∈ sig.named, s.name = n := by
+  simp only [List.mem_map] at h
+  obtain ⟨s, hs, rfl⟩ := h
+  exact ⟨s, hs, rfl⟩
+
+theorem zip_lookup_none (l : List Name) (args : List PV) (k : Name) (h : k ∉ l.take args.length) : lookupKV (l.zip args) k = none := by
+  apply lookupKV_none_of_not_mem
+  intro hm
+  simp only [List.mem_map] at hm
+  obtain ⟨kv, hkv, rfl⟩ := hm
+  have := zip_any_key l args kv.1
+  have hany : (l.zip args).any (fun x => x.1 == kv.1) = true := List.any_eq_true.mpr ⟨kv, hkv, by simp⟩
+  rw [hany] at this
+  exact h (by simpa using this.symm)
+
+theorem findP_of_mem_nodup : ∀ (ps : List VParam) (p : VParam), (ps.map (·.name)).Nodup → p ∈ ps → findP ps p.name = some p := by
+  intro ps
+  induction ps with
+  | nil => intro p _ h; cases h
+  | cons q r ih =>
+    intro p hnd hp
+    simp only [List.map_cons, List.nodup_cons] at hnd
+    simp only [List.mem_cons] at hp
+    simp only [findP]
+    rcases hp with rfl | hp
+    · rw [findP_none_of_not_mem r _ hnd.1]; simp
+    · rw [ih p hnd.2 hp]
+
+/-- every item of a clean call whose by-name binding exists is accepted -/
+theorem items_ok_of_byName_ok (c : Cfg) (m : Mode) (args : List PV) (kw : List (Name × PV)) (n : Assoc)
+    (hva : c.sig.varArgs = false) (hkw : (kw.map (·.1)).Nodup) (hsig : (c.sig.named.map (·.name)).Nodup) (hps : (c.ps.map (·.name)).Nodup)
+    (hclean : CleanCall c args kw) (h : byName c m args kw = .ok n) :
+    ∀ it ∈ gateItems c args kw, ∃ r, itemOut c it = .ok r := by
+  obtain ⟨hlen, hkwn, hdis, hpsn⟩ := hclean
+  have hone : ∀ s ∈ c.sig.named, ∃ r, byNameOne c args kw s = .ok r := by
+    intro s hs
+    obtain ⟨x, hx⟩ := mapM_ok_each _ _ _ h s hs
+    simp only [byNameBind, bind, Except.bind] at hx
+    cases ho : byNameOne c args kw s with
+    | error e => rw [ho] at hx; cases hx
+    | ok r => exact ⟨r, rfl⟩
+  have hz : zipped c args kw = [] := by simp [zipped, surplusArgs, hva]
+  have habsent : ∀ p ∈ c.ps, (c.ignoreInput = true ∨ supplied c.sig args kw p.name = false) → ∃ r, itemOut c (.absent p) = .ok r := by
+    intro p hp hsup
+    obtain ⟨s, hs, hsn⟩ := named_of_name c.sig p.name (hpsn p hp)
+    obtain ⟨r, hr⟩ := hone s hs
+    have hfp : findP c.ps s.name = some p := by rw [hsn]; exact findP_of_mem_nodup c.ps p hps hp
+    have hinp : (if c.ignoreInput = true then none else callerInput c.sig args kw s.name) = none := by
+      rcases hsup with hi | hsu
+      · simp [hi]
+      · by_cases hi : c.ignoreInput = true
+        · simp [hi]
+        · simp only [hi, Bool.false_eq_true, ↓reduceIte, callerInput_eq, hsn]
+          simp only [supplied, Bool.or_eq_false_iff] at hsu
+          have h1 : lookupKV (c.sig.posNames.zip args) p.name = none :=
+            zip_lookup_none _ _ _ (by simpa using hsu.2)
+          have h2 : lookupKV kw p.name = none := by
+            apply lookupKV_none_of_not_mem
+            intro hm
+            simp only [List.mem_map] at hm
+            obtain ⟨kv, hkv, hk⟩ := hm
+            have : kw.any (fun kv => kv.1 == p.name) = true := List.any_eq_true.mpr ⟨kv, hkv, by simp [hk]⟩
+            rw [this] at hsu; exact absurd hsu.1 (by simp)
+          simp [h1, h2]
+    unfold byNameOne at hr
+    simp only [specFindP_eq, hfp, hinp] at hr
+    simp only [itemOut, specDefault_eq, default?_of_mem c.sig s hsig hs ▸ (by rw [hsn] : c.sig.default? p.name = c.sig.default? s.name)]
+    cases he : p.ext with
+    | some v =>
+      rw [he] at hr
+      simp only at hr ⊢
+      cases hv : specValidate p v with
+      | error e => rw [hv] at hr; cases hr
+      | ok w => exact ⟨_, rfl⟩
+    | none =>
+      rw [he] at hr
+      simp only at hr ⊢
+      split at hr
+      · cases hr
+      · rename_i hreq
+        rw [if_neg hreq]
+        cases hd : p.dflt with
+        | some d => exact ⟨_, rfl⟩
+        | none =>
+          rw [hd] at hr
+          simp only at hr ⊢
+          cases hsd : s.dflt with
+          | some d => exact ⟨_, rfl⟩
+          | none => rw [hsd] at hr; cases hr
+  intro it hit
+  unfold gateItems at hit
+  by_cases hi : c.ignoreInput = true
+  · simp only [hi, ↓reduceIte, List.mem_map] at hit
+    obtain ⟨p, hp, rfl⟩ := hit
+    exact habsent p hp (Or.inl hi)
+  · have hi' : c.ignoreInput = false := by simpa using hi
+    have hnot : ¬ args.length > c.sig.pos.length := by omega
+    simp only [hi', Bool.false_eq_true, ↓reduceIte, hnot, decide_false, Bool.false_and, List.nil_append, hva, hz, List.map_nil,
+      List.contains_nil, Bool.not_false, List.mem_append, List.mem_map, surplusArgs, List.length_nil, Nat.not_lt_zero,
+      Bool.and_false, List.not_mem_nil, or_false, false_or, List.append_nil, gt_iff_lt] at hit
+    rcases hit with (⟨kv, hkv, rfl⟩ | ⟨kv, hkv, rfl⟩) | ⟨p, hp, rfl⟩
+    · -- a keyword
+      obtain ⟨k, v⟩ := kv
+      obtain ⟨s, hs, hsn⟩ := named_of_name c.sig k (hkwn _ hkv)
+      subst hsn
+      obtain ⟨r, hr⟩ := hone s hs
+      have hin : callerInput c.sig args kw s.name = some v := by
+        rw [callerInput_eq, zip_lookup_none _ _ _ (hdis _ hkv), lookupKV_of_mem kw s.name v (keysNodup_of_nodup kw hkw) hkv]
+      have hpp : passedPositionally c.sig args s.name = false := by
+        rw [passedPositionally_eq, zip_lookup_none _ _ _ (hdis _ hkv)]; rfl
+      unfold byNameOne at hr
+      simp only [specFindP_eq, hi', Bool.false_eq_true, ↓reduceIte, hin] at hr
+      simp only [itemOut, specFindP_eq]
+      cases hf : findP c.ps s.name with
+      | some p =>
+        rw [hf] at hr
+        simp only at hr ⊢
+        cases hv : specValidate p v with
+        | error e => rw [hv] at hr; cases hr
+        | ok w => exact ⟨_, rfl⟩
+      | none =>
+        rw [hf] at hr
+        simp only [strictRefuses, hpp, Bool.and_false, Bool.not_false, Bool.and_true] at hr ⊢
+        cases hst : c.strict with
+        | true => rw [hst] at hr; cases hr
+        | false => exact ⟨_, rfl⟩
+    · -- a positional
+      obtain ⟨k, v⟩ := kv
+      have hkpos : k ∈ c.sig.posNames := (List.of_mem_zip hkv).1
+      have hknamed : k ∈ c.sig.named.map (·.name) := by
+        simp only [Sig.posNames, List.mem_map] at hkpos
+        obtain ⟨s0, hs0, rfl⟩ := hkpos
+        simp only [Sig.named, List.map_append, List.mem_append, List.mem_map]
+        exact Or.inl ⟨s0, hs0, rfl⟩
+      obtain ⟨s, hs, hsn⟩ := named_of_name c.sig k hknamed
+      subst hsn
+      obtain ⟨r, hr⟩ := hone s hs
+      have hlk : lookupKV (c.sig.posNames.zip args) s.name = some v :=
+        lookupKV_of_mem _ s.name v (keysNodup_zip _ args (posNames_nodup c.sig hsig)) hkv
+      have hin : callerInput c.sig args kw s.name = some v := by rw [callerInput_eq, hlk]
+      have hpp : passedPositionally c.sig args s.name = true := by rw [passedPositionally_eq, hlk]; rfl
+      unfold byNameOne at hr
+      simp only [specFindP_eq, hi', Bool.false_eq_true, ↓reduceIte, hin] at hr
+      simp only [itemOut, specFindP_eq]
+      cases hf : findP c.ps s.name with
+      | some p =>
+        rw [hf] at hr
+        simp only at hr ⊢
+        cases hv : specValidate p v with
+        | error e => rw [hv] at hr; cases hr
+        | ok w => exact ⟨_, rfl⟩
+      | none =>
+        rw [hf] at hr
+        simp only [strictRefuses, hpp, Bool.and_true] at hr
+        simp only
+        have hb : (c.strict && some s.name != specReceiver c.sig) = (c.strict && !(some s.name == specReceiver c.sig)) := rfl
+        rw [hb]
+        cases hst : (c.strict && !(some s.name == specReceiver c.sig)) with
+        | true => rw [hst] at hr; cases hr
+        | false => exact ⟨_, rfl⟩
+    · -- a declared parameter the caller did not supply
+      have hp' := List.mem_filter.mp (List.mem_filter.mp hp).1
+      exact habsent p hp'.1 (Or.inr (by simpa using hp'.2))
+
+/-- after a successful `_wrapper_content` the by-name binding of the specification is Python's binding of the dict by name -/
+theorem byName_eq_bindOnes (c : Cfg) (m : Mode) (args : List PV) (kw : List (Name × PV)) (res : Assoc)
+    (hva : c.sig.varArgs = false)
+    (hkw : (kw.map (·.1)).Nodup) (hsig : (c.sig.named.map (·.name)).Nodup) (hps : (c.ps.map (·.name)).Nodup)
+    (hw : wrapperContent c args kw = .ok res) :
+    byName c m args kw = c.sig.named.mapM (bindOne (if m = .kwWithoutNone then withoutNone res else res)) := by
+  have hnd := wrapperContent_keysNodup c args kw res hw
+  have hg := res_get' c args kw res hva hkw (posNames_nodup c.sig hsig) hps hw
+  unfold byName
+  apply mapM_congr
+  intro s hs
+  simp only [byNameBind, byNameOne_eq_at c args kw s hs hsig, hg s.name, bind, Except.bind, bindOne]
+  cases m with
+  | args =>
+    simp only [reduceCtorEq, ↓reduceIte, Bool.false_and, Bool.false_eq_true, beq_iff_eq]
+    cases res.get? s.name with
+    | some v => rfl
+    | none => cases s.dflt <;> rfl
+  | kwWithNone =>
+    simp only [reduceCtorEq, ↓reduceIte, Bool.false_and, Bool.false_eq_true, beq_iff_eq]
+    cases res.get? s.name with
+    | some v => rfl
+    | none => cases s.dflt <;> rfl
+  | kwWithoutNone =>
+    simp only [↓reduceIte, withoutNone, filterVal_get (fun v => !v.isNone) res s.name hnd, beq_self_eq_true, Bool.true_and]
+    cases hr : res.get? s.name with
+    | none => simp only [reduceCtorEq, beq_iff_eq, ↓reduceIte]; cases s.dflt <;> rfl
+    | some v =>
+      cases v with
+      | none => simp only [PV.isNone, beq_self_eq_true, ↓reduceIte, Bool.not_true, Bool.false_eq_true]; cases s.dflt <;> rfl
+      | obj i =>
+        have : (some (PV.obj i) == some PV.none) = false := by simp
+        simp only [PV.isNone, this, Bool.false_eq_true, ↓reduceIte, Bool.not_false]; rfl
+
+theorem mem_get?_isSome : ∀ (d : Assoc) (k : Name) (v : PV), (k, v) ∈ d → (d.get? k).isSome = true := by
+  intro d
+  induction d with
+  | nil => intro k v h; cases h
+  | cons kv r ih =>
+    intro k v h
+    obtain ⟨k', v'⟩ := kv
+    simp only [Assoc.get?]
+    by_cases he : (k' == k) = true
+    · simp [he]
+    · simp only [he, Bool.false_eq_true, ↓reduceIte]
+      simp only [List.mem_cons, Prod.mk.injEq] at h
+      rcases h with ⟨rfl, _⟩ | h
+      · simp at he
+      · exact ih k v h
+
+/-- **C13 (converse: the body does run).** For a function without `*args` (whose first parameter, if called `self`, is
+    positional), distinct names, and a *clean* call — no surplus positional, every keyword and every declared Parameter names a
+    parameter of the function, no name passed twice — that the trailing Flask block lets through: if the by-name specification
+    binds (`byName … = .ok n`), the call **runs the body with exactly that binding** and nothing in `*args` — in every mode, sync
+    and async.  Together with `binding_is_by_name`: for clean calls the body runs iff the by-name binding exists, and observes it. -/
+theorem binding_is_by_name_converse (c : Cfg) (isAsync : Bool) (m : Mode) (args : List PV) (kw : List (Name × PV)) (n : Assoc)
+    (hva : c.sig.varArgs = false) (hrecv : receiverIsPositional c.sig = true)
+    (hkw : (kw.map (·.1)).Nodup) (hsig : (c.sig.named.map (·.name)).Nodup) (hps : (c.ps.map (·.name)).Nodup)
+    (hclean : CleanCall c args kw) (hflask : ∀ res, specFlask c res = .ok res)
+    (h : byName c m args kw = .ok n) :
+    runValidate c isAsync m args kw = .ok ⟨n, []⟩ := by
+  -- `_wrapper_content` succeeds
+  obtain ⟨res, hres⟩ := gateOut_ok_of_all_ok c (gateItems c args kw) []
+    (items_ok_of_byName_ok c m args kw n hva hkw hsig hps hclean h)
+  have hw : wrapperContent c args kw = .ok res := by
+    rw [gate_spec c args kw hva]; simp only [gate]; rw [hres, hflask]
+  -- the hand-over is by name
+  have hbind := byName_eq_bindOnes c m args kw res hva hkw hsig hps hw
+  have hg := res_get' c args kw res hva hkw (posNames_nodup c.sig hsig) hps hw
+  simp only [runValidate, hw, bind, Except.bind]
+  rw [dispatch_eq_bindDict c.sig isAsync m res hva hrecv]
+  generalize hd : (if m = .kwWithoutNone then withoutNone res else res) = d at hbind ⊢
+  have hsub : ∀ e ∈ d, e ∈ res := by
+    intro e he; rw [← hd] at he
+    split at he
+    · exact (List.mem_filter.mp he).1
+    · exact he
+  unfold bindDict
+  -- every key of the dict is a parameter of the function
+  have hnobad : d.any (notParam c.sig) = false := by
+    rw [Bool.eq_false_iff]
+    intro hany
+    obtain ⟨kv, hkv, hbad⟩ := List.any_eq_true.mp hany
+    obtain ⟨k, v⟩ := kv
+    have hsome := mem_get?_isSome res k v (hsub _ hkv)
+    have hnotnamed : k ∉ c.sig.named.map (·.name) := by
+      intro hm
+      obtain ⟨s, hs, hsn⟩ := named_of_name c.sig k hm
+      simp only [notParam, Bool.not_eq_true', List.any_eq_false] at hbad
+      exact hbad s hs (by simp [hsn])
+    have hat := hg k
+    obtain ⟨hlen, hkwn, hdis, hpsn⟩ := hclean
+    have hfp : findP c.ps k = none := findP_none_of_not_mem c.ps k (by
+      intro hm
+      simp only [List.mem_map] at hm
+      obtain ⟨p, hp, rfl⟩ := hm
+      exact hnotnamed (hpsn p hp))
+    have hci : callerInput c.sig args kw k = none := by
+      rw [callerInput_eq, zip_lookup_none, lookupKV_none_of_not_mem]
+      · intro hm
+        simp only [List.mem_map] at hm
+        obtain ⟨kv, hkv', rfl⟩ := hm
+        exact hnotnamed (hkwn kv hkv')
+      · intro hm
+        have := List.mem_of_mem_take hm
+        simp only [Sig.posNames, List.mem_map] at this
+        obtain ⟨s0, hs0, rfl⟩ := this
+        exact hnotnamed (by simp only [Sig.named, List.map_append, List.mem_append, List.mem_map]; exact Or.inl ⟨s0, hs0, rfl⟩)
+    simp only [byNameAt, hfp, hci, ite_self, Except.ok.injEq] at hat
+    rw [← hat] at hsome; cases hsome
+  rw [if_neg (by simp [hnobad])]
+  rw [← hbind, h]
+  rfl
+
+/-- the other direction of the exception clause: when the by-name specification raises, the body does not run -/
+theorem byName_error_blocks_body (c : Cfg) (isAsync : Bool) (m : Mode) (args : List PV) (kw : List (Name × PV)) (e : VExc)
+    (hva : c.sig.varArgs = false)
+    (hkw : (kw.map (·.1)).Nodup) (hsig : (c.sig.named.map (·.name)).Nodup) (hps : (c.ps.map (·.name)).Nodup)
+    (h : byName c m args kw = .error e) :
+    ∃ e', runValidate c isAsync m args kw = .error e' := by
+  cases hr : runValidate c isAsync m args kw with
+  | error e' => exact ⟨e', rfl⟩
+  | ok b =>
+    have := (binding_is_by_name c isAsync m args kw b hva hkw hsig hps hr).1
+    rw [h] at this; cases this
+
+/-- the by-name rule of two calls that supply the same values agrees when the receiver is passed in the same style (the one
+    route-dependent clause: under `strict` the receiver needs no Parameter only when bound positionally) -/
+theorem byName_congr (c : Cfg) (m : Mode) (args1 args2 : List PV) (kw1 kw2 : List (Name × PV))
+    (h : ∀ n, callerInput c.sig args1 kw1 n = callerInput c.sig args2 kw2 n)
+    (hstyle : c.strict = true → passedPositionally c.sig args1 selfName = passedPositionally c.sig args2 selfName) :
+    byName c m args1 kw1 = byName c m args2 kw2 := by
+  unfold byName
+  apply mapM_congr
+  intro s _
+  have hsr : strictRefuses c args1 s.name = strictRefuses c args2 s.name := by
+    unfold strictRefuses
+    cases hs : c.strict with
+    | false => rfl
+    | true =>
+      simp only [Bool.true_and]
+      rcases specReceiver_cases c.sig with hr | hr
+      · simp [hr]
+      · rw [hr]
+        by_cases hn : s.name = selfName
+        · rw [hn, hstyle hs]
+        · have : (some s.name == some selfName) = false := by simpa using hn
+          simp [this]
+  simp only [byNameBind, byNameOne, h s.name, hsr]
+
+/-- **C13 (call style, as an equation of outcomes for clean calls).** Two clean calls that supply the same value for every name
+    (the receiver in the same style when `strict`): if one runs the body, so does the other — with the same binding. -/
+theorem call_style_independent_runs (c : Cfg) (a1 a2 : Bool) (m : Mode) (args1 args2 : List PV) (kw1 kw2 : List (Name × PV))
+    (b : Binding)
+    (hva : c.sig.varArgs = false) (hrecv : receiverIsPositional c.sig = true)
+    (hsig : (c.sig.named.map (·.name)).Nodup) (hps : (c.ps.map (·.name)).Nodup)
+    (hkw1 : (kw1.map (·.1)).Nodup) (hkw2 : (kw2.map (·.1)).Nodup)
+    (hclean2 : CleanCall c args2 kw2) (hflask : ∀ res, specFlask c res = .ok res)
+    (hsame : ∀ n, callerInput c.sig args1 kw1 n = callerInput c.sig args2 kw2 n)
+    (hstyle : c.strict = true → passedPositionally c.sig args1 selfName = passedPositionally c.sig args2 selfName)
+    (h1 : runValidate c a1 m args1 kw1 = .ok b) :
+    runValidate c a2 m args2 kw2 = .ok b := by
+  obtain ⟨hn, he⟩ := binding_is_by_name c a1 m args1 kw1 b hva hkw1 hsig hps h1
+  rw [byName_congr c m args1 args2 kw1 kw2 hsame hstyle] at hn
+  have := binding_is_by_name_converse c a2 m args2 kw2 b.named hva hrecv hkw2 hsig hps hclean2 hflask hn
+  rw [this]; cases b; simp only at he; rw [he]
+
 /-- the facts the translator reads about `await`: every call of `func` in `async_wrapper` is awaited, none in `wrapper`;
     both wrappers are the same program -/
 theorem dispatch_source_shape : awaitsOk = true ∧ asyncWrapperProg = wrapperProg := by decide
@@ -327,5 +722,56 @@ example : runValidate exCfgSelfLast false .args [.obj 100, .obj 101, .obj 5] []
     = .ok ⟨[(2, .obj 801), (3, .obj 809), (selfName, .obj 5)], []⟩ := by rfl
 example : runValidate exCfgSelfLast false .kwWithNone [.obj 100] [(selfName, .obj 5), (3, .obj 101)]
     = .ok ⟨[(2, .obj 801), (3, .obj 809), (selfName, .obj 5)], []⟩ := by rfl
+
+/-! ### the converse: instances and why its hypotheses are there -/
+
+-- the hypotheses of `binding_is_by_name_converse` are satisfiable: `f(100, b=101)` runs with the by-name binding
+example : runValidate exCfg true .kwWithNone [.obj 100] [(3, .obj 101)] = .ok ⟨[(2, .obj 801), (3, .obj 809)], []⟩ :=
+  binding_is_by_name_converse exCfg true .kwWithNone [.obj 100] [(3, .obj 101)] _ rfl (by decide) (by decide) (by decide) (by decide)
+    ⟨by decide, by decide, by decide, by decide⟩ (fun _ => rfl) (by rfl)
+
+/-- **why `hflask`**: `@validate(strict=True)` without any Parameter, outside a request context: the by-name specification binds
+    (nothing), but the trailing Flask block touches the request proxy — `RuntimeError`, the body does not run -/
+example : byName { exCfg with ps := [], sig := { pos := [], varArgs := false, kwOnly := [] } } .args [] [] = .ok [] ∧
+    runValidate { exCfg with ps := [], sig := { pos := [], varArgs := false, kwOnly := [] } } false .args [] []
+      = .error .flaskOutsideContext := ⟨rfl, rfl⟩
+
+/-- **why `receiverIsPositional`** (witness for the complement): `def f(*, self)` non-strict, `f(self=5)`: by name `self` is 5, but
+    the first parameter being called `self` makes it the receiver, which is handed over positionally — Python refuses -/
+theorem converse_needs_receiverIsPositional :
+    let c : Cfg := { ps := [], sig := { pos := [], varArgs := false, kwOnly := [⟨selfName, none⟩] }, strict := false,
+                     ignoreInput := false, req := .notJson }
+    receiverIsPositional c.sig = false ∧ byName c .kwWithNone [] [(selfName, .obj 5)] = .ok [(selfName, .obj 5)] ∧
+    (runValidate c false .kwWithNone [] [(selfName, .obj 5)] : Outcome) = .error .bodyTypeError := by decide
+
+/-- **why `hps`** (distinct Parameter names; witness for the complement): `@validate(Parameter('a'), Parameter('a', required=False,
+    default=<obj 70>))  def f(a=<obj 60>)`, called `f()`: `parameter_dict` keeps the *last* declaration — by name `a` is its default
+    70 — but the third loop walks over *both* declarations and the first one, required and missing, raises -/
+theorem converse_needs_distinct_parameter_names :
+    let c : Cfg := { ps := [⟨2, true, none, none, none, [], false, by decide⟩, ⟨2, false, some (.obj 70), none, none, [], false, by decide⟩],
+                     sig := { pos := [⟨2, some (.obj 60)⟩], varArgs := false, kwOnly := [] }, strict := false, ignoreInput := false,
+                     req := .notJson }
+    byName c .args [] [] = .ok [(2, .obj 70)] ∧ (runValidate c false .args [] [] : Outcome) = .error (.parameter 2 .required) := by
+  decide
+
+/-- an external source, a conversion, `ignore_input=True` and a JSON request, next to the theorems: `b` comes from its source (`obj
+    300` → conversion → `obj 301` → validator → `obj 2409`), caller input is ignored, the JSON body has only declared keys -/
+def exCfgSources : Cfg :=
+  { ps := [⟨3, true, none, some (.obj 300), some (fun v => if v = .obj 300 then .ok (.obj 301) else .error (.rejected emptyName)),
+            [exStep], true, by decide⟩,
+           ⟨2, false, some (.obj 70), none, none, [exStep], true, by decide⟩],
+    sig := { pos := [⟨2, none⟩, ⟨3, some (.obj 50)⟩], varArgs := false, kwOnly := [] }, strict := true, ignoreInput := true,
+    req := .json [3] }
+example : runValidate exCfgSources false .args [.obj 100] [(3, .obj 101)] = .ok ⟨[(2, .obj 70), (3, .obj 2409)], []⟩ := by rfl
+example : byName exCfgSources .args [.obj 100] [(3, .obj 101)] = .ok [(2, .obj 70), (3, .obj 2409)] :=
+  (binding_is_by_name exCfgSources false .args [.obj 100] [(3, .obj 101)] _ rfl (by decide) (by decide) (by decide) rfl).1
+example : runValidate exCfgSources false .args [.obj 100] [(3, .obj 101)] = runValidate exCfgSources false .args [] [] :=
+  ignore_input_ignores exCfgSources false .args _ _ rfl
+-- `external_only_when_absent`: the external value is what goes through the chain and is filed
+example : ∃ w, (exCfgSources.ps)[0].validate (.obj 300) = .ok w ∧ Assoc.get? [(3, .obj 2409), (2, .obj 70)] 3 = some w :=
+  external_only_when_absent exCfgSources [.obj 100] [(3, .obj 101)] _ 3 _ (.obj 300) rfl (by decide) (by decide) (by decide) rfl
+    (Or.inl rfl) rfl (by rfl)
+-- a JSON key without declared Parameter under strict: TooManyArguments (the trailing block)
+example : runValidate { exCfgSources with req := .json [3, 6] } false .args [] [] = .error .tooMany := by rfl
 
 end PedVerif.Validate
